@@ -512,6 +512,11 @@ func c09PeerFor(r *vf.Rand, entry, def string) string {
 	out := make(net.IP, len(ip))
 	copy(out, ip)
 
+	if !inside && r.Chance(25) {
+		// the address whose text continues the entry's text
+		return net.JoinHostPort(c09TextNeighbour(r, ip.String()), "4711")
+	}
+
 	if !inside {
 		switch r.Intn(3) {
 		case 0:
@@ -1658,6 +1663,206 @@ func c09Corpus() []c09Case {
 
 const c09SocketCases = 40
 
+// ---------------------------------------------------------------- histories: several requests on ONE fresh instance
+
+// c09Hist is a case of the history stream: one freshly started application (so one instance of every
+// middleware) serves the steps in this order; every step is judged like a single request.  What an
+// instance may remember from earlier requests (a "last peer" short cut, a per-address cache, a negative
+// cache) must not change what a later request gets.
+type c09Hist struct {
+	Proxy      bool      `json:"proxy"`
+	DecisionTP *[]string `json:"decision_trusted_proxies"`
+	ProxyTP    *[]string `json:"proxy_trusted_proxies"`
+	LogLevel   string    `json:"log_level"`
+	Steps      []c09Req  `json:"steps"`
+}
+
+func (h c09Hist) caseOf(q c09Req) c09Case {
+	return c09Case{Proxy: h.Proxy, DecisionTP: h.DecisionTP, ProxyTP: h.ProxyTP, LogLevel: h.LogLevel, Req: q}
+}
+
+var c09Anchors = []string{
+	"10.0.0.1", "192.168.1.1", "10.1.2.3", "127.0.0.1", "172.16.5.5", "8.8.8.8", "10.0.0.2", "192.168.1.25",
+	"::1", "2001:db8::1", "fe80::1", "2001:db8:0:1::2", "::ffff:10.0.0.1",
+}
+
+// an address whose TEXT starts with the text of host: 10.0.0.1 -> 10.0.0.17 / 10.0.0.104, ::1 -> ::1a
+func c09TextNeighbour(r *vf.Rand, host string) string {
+	if !strings.Contains(host, ":") || strings.HasPrefix(host, "::ffff:") && strings.Contains(host, ".") {
+		i := strings.LastIndexByte(host, '.')
+		last := host[i+1:]
+		cands := []string{}
+
+		for d := 0; d < 10; d++ {
+			for _, c := range []string{fmt.Sprintf("%s%d", last, d), fmt.Sprintf("%s%d%d", last, d, r.Intn(10))} {
+				var n int
+				if _, err := fmt.Sscanf(c, "%d", &n); err == nil && n <= 255 && len(c) <= 3 && c[0] != '0' {
+					cands = append(cands, c)
+				}
+			}
+		}
+
+		if len(cands) == 0 {
+			return host
+		}
+
+		return host[:i+1] + vf.Pick(r, cands)
+	}
+
+	i := strings.LastIndexByte(host, ':')
+	if len(host)-i-1 >= 4 {
+		return host
+	}
+
+	return host + string("0123456789abcdef"[r.Intn(16)])
+}
+
+func c09HostPort(r *vf.Rand, host string) string {
+	return net.JoinHostPort(host, vf.Pick(r, []string{"80", "8080", "1234", "4711", "443", "44300", fmt.Sprint(1024 + r.Intn(60000))}))
+}
+
+func c09GenHist(r *vf.Rand, mk string) c09Hist {
+	anchor := vf.Pick(r, c09Anchors)
+	if r.Chance(25) {
+		v4 := c09RandV4(r)
+		v4[3] = byte(1 + r.Intn(25))
+		anchor = v4.String()
+	}
+
+	// the own list trusts the anchor (alone, as a one-address range, inside a small range) plus, sometimes, others
+	var own []string
+
+	ip := net.ParseIP(anchor)
+
+	switch k := r.Intn(10); {
+	case k < 4:
+		own = []string{anchor}
+	case k < 6 && ip.To4() != nil:
+		own = []string{ip.To4().String() + "/32"}
+	case k < 8 && ip.To4() != nil:
+		own = []string{ip.To4().String() + vf.Pick(r, []string{"/30", "/29", "/28"})}
+	case k < 8:
+		own = []string{anchor + vf.Pick(r, []string{"/128", "/126", "/124"})}
+	default:
+		own = []string{c09RandEntry(r), anchor, c09RandEntry(r)}
+	}
+
+	if r.Chance(10) {
+		own = []string{c09RandEntry(r)} // the anchor is NOT trusted: nothing may be remembered in its favour either
+	}
+
+	h := c09Hist{Proxy: r.Bool(), LogLevel: vf.Pick(r, []string{"info", "info", "trace"})}
+	other := c09GenList(r)
+
+	if h.Proxy {
+		h.ProxyTP, h.DecisionTP = &own, other
+	} else {
+		h.DecisionTP, h.ProxyTP = &own, other
+	}
+
+	spoof := [][2]string{{"X-Forwarded-Method", "POST"}, {"X-Forwarded-Uri", "/pst/a?h=" + mk}, {"X-Forwarded-Host", mk + ".evil.example.com"},
+		{"X-Forwarded-Proto", "https"}, {"X-Forwarded-For", "1.1.1.1, " + mk}, {"Forwarded", "for=" + mk}}
+
+	n := r.Range(2, 6)
+	neighbour := c09TextNeighbour(r, anchor)
+
+	for i := 0; i < n; i++ {
+		q := c09GenReq(r.Fork(uint64(50+i)), fmt.Sprintf("%ss%d", mk, i))
+
+		k := r.Intn(100)
+		if i == 0 {
+			k = []int{0, 0, 0, 30, 30, 55, 90}[r.Intn(7)] // mostly: a trusted peer first, or its neighbour first
+		}
+
+		switch {
+		case k < 30:
+			q.Peer = c09HostPort(r, anchor)
+		case k < 55:
+			q.Peer = c09HostPort(r, neighbour)
+		case k < 65:
+			q.Peer = c09HostPort(r, c09TextNeighbour(r, anchor))
+		case k < 72:
+			q.Peer = anchor // no port: nobody
+		case k < 78: // the other textual form of the same address
+			if v4 := ip.To4(); v4 != nil && !strings.Contains(anchor, ":") {
+				q.Peer = c09HostPort(r, "::ffff:"+v4.String())
+			} else if v4 != nil {
+				q.Peer = c09HostPort(r, v4.String())
+			} else {
+				q.Peer = c09HostPort(r, anchor)
+			}
+		case k < 84:
+			q.Peer = vf.Pick(r, c09BadPeers)
+		default:
+			// an unrelated peer as generated
+		}
+
+		has := false
+		for _, hd := range q.Headers {
+			if isFwdName(hd.Name) {
+				has = true
+			}
+		}
+
+		if !has {
+			for _, kv := range spoof {
+				if r.Chance(60) {
+					q.Headers = append(q.Headers, c09Hdr{c09Casing(r, kv[0]), kv[1]})
+				}
+			}
+		}
+
+		h.Steps = append(h.Steps, q)
+	}
+
+	return h
+}
+
+func c09HistCorpus() []c09Hist {
+	hd := func(kv ...string) []c09Hdr {
+		out := []c09Hdr{}
+		for i := 0; i+1 < len(kv); i += 2 {
+			out = append(out, c09Hdr{kv[i], kv[i+1]})
+		}
+
+		return out
+	}
+	spoof := hd("X-Forwarded-Method", "POST", "X-Forwarded-Uri", "/pst/a?x=1", "X-Forwarded-Host", "evil.example.com",
+		"X-Forwarded-Proto", "https", "X-Forwarded-For", "1.1.1.1")
+	rq := func(peer string) c09Req {
+		return c09Req{Peer: peer, Method: "GET", Target: "/pub/a", Host: "a.example.com", Headers: spoof}
+	}
+
+	var out []c09Hist
+
+	for _, proxy := range []bool{false, true} {
+		for _, v := range []struct {
+			own   []string
+			steps []c09Req
+		}{
+			// a trusted peer, then a peer that is not trusted but whose address starts with the same text
+			{[]string{"10.0.0.1"}, []c09Req{rq("10.0.0.1:1234"), rq("10.0.0.17:4711"), rq("10.0.0.104:80")}},
+			{[]string{"192.168.1.0/28"}, []c09Req{rq("192.168.1.1:80"), rq("192.168.1.100:80"), rq("192.168.1.1:8080"), rq("192.168.1.19:1")}},
+			// the other way round: nothing remembered about the stranger may cost the trusted peer its headers
+			{[]string{"10.0.0.17"}, []c09Req{rq("10.0.0.1:1234"), rq("10.0.0.17:4711"), rq("10.0.0.1:4711"), rq("10.0.0.17:1234")}},
+			{[]string{"::1"}, []c09Req{rq("[::1]:80"), rq("[::1a]:80"), rq("[::1]:8080"), rq("[::]:80")}},
+		} {
+			own := v.own
+			h := c09Hist{Proxy: proxy, LogLevel: "info", Steps: v.steps}
+
+			if proxy {
+				h.ProxyTP = &own
+			} else {
+				h.DecisionTP = &own
+			}
+
+			out = append(out, h)
+		}
+	}
+
+	return out
+}
+
 type c09Runner struct {
 	t     *testing.T
 	w     *vf.Writer
@@ -1809,14 +2014,89 @@ func TestVerifC09(t *testing.T) {
 		rn.put(stream, c, loadedOK, or, full)
 	}
 
+	emitHist := func(stream string, h c09Hist) {
+		defer func() { rn.idx++ }()
+
+		if !vf.Want(rn.idx) || len(h.Steps) == 0 {
+			return
+		}
+
+		// a fresh application: the history of its middleware instances is exactly the steps (and their partners) below
+		c0 := h.caseOf(h.Steps[0])
+
+		app, err := assembly.StartHandler(map[bool]assembly.Mode{false: assembly.Decision, true: assembly.Proxy}[h.Proxy], c09Config(c0), rn.rules)
+		if err != nil {
+			t.Fatalf("history %d: cannot start app: %v", rn.idx, err)
+		}
+		defer app.Stop()
+
+		loadedOK := c09SameList(app.Conf.Serve.Decision.TrustedProxies, h.DecisionTP) &&
+			c09SameList(app.Conf.Serve.Proxy.TrustedProxies, h.ProxyTP)
+
+		terms, outs := []string{}, []c09Obs{}
+		tagset := map[string]bool{}
+		nt := false
+		extra := map[string]any{}
+
+		for i, q := range h.Steps {
+			c := h.caseOf(q)
+
+			or := c09OracleOf(c)
+			if or.parseErr != "" {
+				continue
+			}
+
+			full := c09ObserveHandler(app, up, lg, c)
+			base := c09ObserveHandler(app, up, lg, c09Baseline(c))
+			full.obs.Pair, full.obs.Leaks = c09Compare(full, base, c.Req)
+
+			tags, n1 := c09Tags(c, or, full.obs)
+			for _, tg := range tags {
+				tagset[tg] = true
+			}
+
+			nt = nt || n1
+
+			if len(full.obs.Pair) > 0 || len(full.obs.Leaks) > 0 {
+				extra[fmt.Sprintf("sinks_step_%d", i)] = full.sinks
+			}
+
+			terms = append(terms, c09Coq(c, loadedOK, or, full.obs))
+			outs = append(outs, full.obs)
+		}
+
+		if len(terms) == 0 {
+			return
+		}
+
+		tags := []string{fmt.Sprintf("history:steps-%d", len(terms))}
+		if tagset["trust:trusted"] && tagset["trust:untrusted"] {
+			tags = append(tags, "history:trusted-and-untrusted-peers-on-one-instance")
+		}
+
+		for tg := range tagset {
+			if !strings.HasPrefix(tg, "transport:") {
+				tags = append(tags, tg)
+			}
+		}
+
+		tags = append(tags, "transport:inprocess-history")
+
+		w.Put(vf.Obs{I: rn.idx, Stream: stream, In: h, Out: outs, Coq: "[" + strings.Join(terms, "; ") + "]", Nontrivial: nt, Tags: tags, Extra: extra})
+	}
+
 	for _, c := range c09Corpus() {
 		emit("corpus", c)
+	}
+
+	for _, h := range c09HistCorpus() {
+		emitHist("corpus-history", h)
 	}
 
 	// generated: one pair of trusted_proxies lists per group, several peers x header sets per group
 	const perList = 12
 
-	limit := n + len(c09Corpus()) - c09SocketCases
+	limit := n + len(c09Corpus()) + len(c09HistCorpus()) - c09SocketCases
 
 	for g := 0; rn.idx < limit; g++ {
 		gr := root.Fork(uint64(g))
@@ -1847,6 +2127,12 @@ func TestVerifC09(t *testing.T) {
 
 	// real sockets: the assembled services listening on 127.0.0.1, peers 127.0.0.x / 127.0.1.x
 	c09SocketStream(rn, root)
+
+	// histories: n/12 fresh instances, 2-6 requests each, peers around one anchor address
+	for k, hn := 0, max(24, n/12); k < hn; k++ {
+		hr := root.Fork(uint64(2000000 + k))
+		emitHist("history", c09GenHist(hr, fmt.Sprintf("zh%x%x", vf.Seed()&0xfff, rn.idx)))
+	}
 }
 
 func (rn *c09Runner) put(stream string, c c09Case, loadedOK bool, or c09Oracle, ro c09RawObs) {
@@ -1857,7 +2143,8 @@ func (rn *c09Runner) put(stream string, c c09Case, loadedOK bool, or c09Oracle, 
 		extra["sinks"] = ro.sinks // for the reader of a replay file
 	}
 
-	rn.w.Put(vf.Obs{I: rn.idx, Stream: stream, In: c, Out: ro.obs, Coq: c09Coq(c, loadedOK, or, ro.obs), Nontrivial: nt, Tags: tags, Extra: extra})
+	// a case is a history of requests on one instance; here: a single request
+	rn.w.Put(vf.Obs{I: rn.idx, Stream: stream, In: c, Out: ro.obs, Coq: "[" + c09Coq(c, loadedOK, or, ro.obs) + "]", Nontrivial: nt, Tags: tags, Extra: extra})
 }
 
 func c09SocketStream(rn *c09Runner, root *vf.Rand) {
